@@ -593,7 +593,11 @@ output(std::ostream &out, int indent_level, CPPScope *scope, bool complete,
     // In this case, the whole thing is really an expression, and not an
     // instance at all.  This can only happen if we parsed an instance
     // declaration while we thought we were parsing a function prototype.
-    out << *_initializer;
+    // (There is no expression when the parameter list was malformed, as in
+    // "int f(g)const;" with an undeclared g.)
+    if (_initializer != nullptr) {
+      out << *_initializer;
+    }
     return;
   }
 
